@@ -77,6 +77,9 @@ func OpenStoreRoots(env *Env, cfg Config, roots []cid.Cid) (st Store, err error)
 	defer func() { sim.CurrentFS = prev }()
 	switch cfg.Store {
 	case "rw":
+		if d := env.Disk(); d != nil {
+			d.EOFAtEnd = false // an *os.File never does this
+		}
 		rw, err := blockstore.OpenReadWrite(env.Path, roots, cfg.Options()...)
 		if err != nil {
 			return nil, err
@@ -88,6 +91,7 @@ func OpenStoreRoots(env *Env, cfg Config, roots []cid.Cid) (st Store, err error)
 			d = sim.NewDisk(env.Path)
 			env.FS.Disks[env.Path] = d
 		}
+		d.EOFAtEnd = cfg.EOFAtEnd
 		f := sim.NewFile(d)
 		var sc *storage.StorageCar
 		if d.Size() == 0 {
@@ -107,6 +111,7 @@ func OpenStoreRoots(env *Env, cfg Config, roots []cid.Cid) (st Store, err error)
 			env.FS.Disks[env.Path] = d
 		}
 		if cfg.Store == "sc-nt" {
+			d.EOFAtEnd = cfg.EOFAtEnd
 			sc, err := storage.NewReadableWritable(sim.NewFileNT(d), roots, cfg.Options()...)
 			if err != nil {
 				return nil, err
